@@ -34,6 +34,10 @@ def l1_monitor(rec):
             ids = [ip.worker_id for ip in after.workers[c.step_name].in_progress]
             if c.id not in ids:
                 out.append("CommandRunWorker(%s, id=%d) not in in_progress %s" % (c.step_name, c.id, ids))
+    started = [(c.step_name, c.id) for c in cmds if isinstance(c, CommandRunWorker)]
+    twice = sorted({k for k in started if started.count(k) > 1})
+    if twice:
+        out.append("one tick started two invocations on the same slot: CommandRunWorker issued twice for %s" % (twice,))
     return out
 
 
